@@ -164,13 +164,13 @@ def neg_row(v, s, k, trace=None):
     """names that designate no child of segment s (field row k gives the context)"""
     ch = T.seg_children(v, s)
     seg = Segment(s, version=v, validation_level=2)
-    if seg.allow_infinite_children:
-        return True          # any index designates a child there (C02 Z.open)
     name = ch[k][0]
     n = T.child_number(name)
     last = T.child_number(ch[-1][0])
     other = 'PID' if s != 'PID' else 'EVN'
     bad = ['%s_%d' % (other, n), '%s_%d' % (s, last + 1), '%s_0' % s, '%s_%d_x' % (s, n), '%s__%d' % (s, n), 'NOSUCHLONGNAME_%d' % n]
+    if seg.allow_infinite_children:
+        bad = []             # any index designates a child there (C02 Z.open): only the field-level part below applies
     if '%s_0' % s in [c[0] for c in ch]:
         bad.remove('%s_0' % s)
     before = (seg.to_er7(), len(seg.children), dict(seg.children.traversal_indexes))
@@ -208,8 +208,29 @@ def neg_row(v, s, k, trace=None):
         return False
     # the same at field level: positional paths that belong to ANOTHER field of the segment designate nothing here
     f = Field(name, version=v, validation_level=2)
-    if f.datatype == 'varies' or s == 'MSH':
+    if s == 'MSH':
         return True
+    if f.datatype == 'varies':
+        # the components of a field of type varies have no structure: a positional SUBcomponent path designates nothing
+        for path in ('%s_%d_1_1' % (s, n), '%s_%d_2_1' % (s.lower(), n)):
+            for op in ('get', 'set', 'del'):
+                try:
+                    if op == 'get':
+                        getattr(f, path)
+                    elif op == 'set':
+                        setattr(f, path, 'X')
+                    else:
+                        delattr(f, path)
+                    if trace is not None:
+                        trace.append('%s Field %s (varies): %s through %r did not raise' % (v, name, op, path))
+                    return False
+                except (ChildNotFound, ChildNotValid):
+                    pass
+                except Exception as e:
+                    if trace is not None:
+                        trace.append('%s Field %s (varies): %s of %r raised %s: %s' % (v, name, op, path, type(e).__name__, e))
+                    return False
+        return f.to_er7() == ''
     fb = (f.to_er7(), len(f.children))
     others = sorted({n * 10, n * 10 + 3, n + 1, n + 10, int('1%d' % n)} - {n})
     for j in others:
@@ -244,7 +265,8 @@ NF, NCM, NSB = len(FIELD_ROWS), len(CMP_ROWS), len(SUB_ROWS)
 _by_seg = {}
 for _r in FIELD_ROWS:
     _by_seg.setdefault(_r[:2], []).append(_r)
-NEG_ROWS = sorted({x for rows in _by_seg.values() for x in (rows[0], rows[len(rows) // 2], rows[-1])})
+NEG_ROWS = sorted({x for rows in _by_seg.values() for x in (rows[0], rows[len(rows) // 2], rows[-1])} |
+                  {r for r in FIELD_ROWS if T.child_datatype(T.seg_children(T.VERSIONS[r[0]], T.SEGS[T.VERSIONS[r[0]]][r[1]])[r[2]]) == 'varies'})
 NNEG = len(NEG_ROWS)
 
 
